@@ -13,7 +13,8 @@ from __future__ import annotations
 import json
 from typing import Any, Callable, Dict, List, Tuple
 
-from mc import world
+from mc import simctl, world
+from mc.report import guard_harness as _guard
 from mc.report import add_sample, add_violation, count, new_part
 
 LEVEL = "model_checking"
@@ -54,7 +55,7 @@ class Env:
         mm = self.conn.builder._mem_mgr
         return {
             "active": sorted(str(r) for r in mm._active_registers),
-            "meas_used": sorted(str(r) for r, u in mm._used_meas_registers.items() if u),
+            "meas_used": simctl.meas_registers_in_use(mm),
             "to_return": [str(r) for r in mm._registers_to_return],
             "ops_since_flush": self.ops_since_flush,
             "regmeas_since_flush": self.regmeas_since_flush,
@@ -358,6 +359,7 @@ def shard_coexist(shard):
             got = mine.economy()
             after = other.economy()
         except Exception as exc:
+            _guard(exc)
             add_violation(part, f"coexisting-connections/raises/{name}", f"{type(exc).__name__}: {str(exc).splitlines()[0][:160] if str(exc) else ''}", case)
             continue
         if got != want:
@@ -392,6 +394,7 @@ def expand(shard):
             try:
                 apply(e, idx)
             except Exception as exc:
+                _guard(exc)
                 msg = str(exc).splitlines()[0][:160] if str(exc) else ""
                 fp = "out-of-registers" if ("available" in msg and "register" in msg) or "M-registers" in msg else "operation-raises"
                 add_violation(part, f"{fp}/{name}", f"after {len(history)} completed operations, {name} fails to compile: "
@@ -425,6 +428,7 @@ def expand(shard):
                         add_violation(part, f"leak-at-flush/meas-register/{name}", f"flushing right after {name} leaves measurement "
                                       "registers / registers-to-return behind", case, {"after_flush": probe})
                 except Exception as exc:
+                    _guard(exc)
                     msg = str(exc).splitlines()[0][:160] if str(exc) else ""
                     add_violation(part, f"flush-raises/{name}", f"flushing right after {name} fails: {type(exc).__name__}: {msg}", case)
                 succ_key = k_before_probe
@@ -482,6 +486,7 @@ def long_history(shard):
             if (n + 1) % k == 0:
                 apply(e, OPI["flush"])
         except Exception as exc:
+            _guard(exc)
             add_violation(part, f"out-of-registers/{name}", f"{name} repeated {n} times (flush every {k}) fails: {type(exc).__name__}: "
                           f"{str(exc)[:120]}", case)
             break
